@@ -190,6 +190,8 @@ class Env:
         self.dests: List[Dest] = []
         self.initial: Dict[str, Tuple[bytes, int]] = {}
         self.call: Callable[[], Any] = lambda: None
+        # a later, fault-free, much SHORTER write to the same destination(s): (call, {dest name: expected bytes})
+        self.follow: Optional[Tuple[Callable[[], Any], Dict[str, bytes]]] = None
         self.suffixes: Tuple[str, ...] = ()
         self._env_saved = {k: os.environ.get(k) for k in ("CLEMATIS_LOG_DIR", "CLEMATIS_SNAPSHOT_DIR")}
         os.environ["CLEMATIS_SNAPSHOT_DIR"] = self.scratch("snapenv")
@@ -255,6 +257,9 @@ def _read(p: str) -> bytes:
         return f.read()
 
 
+FOLLOW = {"lit": "7a"}  # the payload of the follow-up write (a few bytes in every target's encoding)
+
+
 def prepare(case: dict, base_dir: Optional[str] = FAST_TMP) -> Env:
     """Build the sandbox for a case: {"target","old":spec|None,"new":spec,"perm":int,"pathstyle":"str"|"path"}."""
     import importlib
@@ -274,6 +279,8 @@ def prepare(case: dict, base_dir: Optional[str] = FAST_TMP) -> Env:
             parg = pathlib.Path(path) if case.get("pathstyle") == "path" else path
             fn = {"bytes": A.atomic_write_bytes, "text": A.atomic_write_text, "json": A.atomic_write_json}[t]
             env.call = lambda: fn(parg, arg)
+            f_arg, f_new = materialize_simple(t, FOLLOW)
+            env.follow = (lambda: fn(parg, f_arg), {name: f_new})
             env.dests = [Dest(name, "body", old, new, perm if old is not None else None)]
             env.suffixes = (".json",) if t == "json" else ()
         elif t == "snapshot":
@@ -300,6 +307,10 @@ def prepare(case: dict, base_dir: Optional[str] = FAST_TMP) -> Env:
             env.put("state_b2.json", b'{"schema_version":"v1","version_etag":"other"}', 0o644)
             st, etag, dl = _state(new_spec)
             env.call = lambda: S.write_snapshot(ctx_for(env.w), st, etag, applied=len(dl), deltas=dl)
+            f_body, f_meta = ref(FOLLOW, "r_follow")
+            fst, fetag, fdl = _state(FOLLOW)
+            env.follow = (lambda: S.write_snapshot(ctx_for(env.w), fst, fetag, applied=len(fdl), deltas=fdl),
+                          {"state_a1.json": f_body, "state_a1.json.meta": f_meta})
             env.dests = [Dest("state_a1.json", "body", old_body, new_body, perm if old_body is not None else None),
                          Dest("state_a1.json.meta", "sidecar", OLD_SIDECAR if old_body is not None else None, new_meta,
                               0o644 if old_body is not None else None)]
@@ -329,6 +340,10 @@ def prepare(case: dict, base_dir: Optional[str] = FAST_TMP) -> Env:
                 env.put(name + ".meta", OLD_SIDECAR, 0o644)
             new_p = _payload(new_spec)
             env.call = lambda: S.write_snapshot_auto(env.w, etag_from="e1", etag_to="e2", payload=new_p, delta_mode=dmode)
+            f_body, f_meta = ref(FOLLOW, "r_follow")
+            f_p = _payload(FOLLOW)
+            env.follow = (lambda: S.write_snapshot_auto(env.w, etag_from="e1", etag_to="e2", payload=f_p, delta_mode=dmode),
+                          {name: f_body, name + ".meta": f_meta})
             env.dests = [Dest(name, "body", old_body, new_body, perm if old_body is not None else None),
                          Dest(name + ".meta", "sidecar", OLD_SIDECAR if old_body is not None else None, new_meta,
                               0o644 if old_body is not None else None)]
@@ -341,6 +356,10 @@ def prepare(case: dict, base_dir: Optional[str] = FAST_TMP) -> Env:
             new = _read(os.path.join(env.sandbox, "r_new", "t1.jsonl"))
             if [json.loads(x).get("turn") for x in new.decode("utf-8").split("\n") if x] != [r["turn"] for r in recs]:
                 raise Violation("fault-free rewrite_jsonl does not hold one line per record", case, "baseline")
+            f_recs = _records(FOLLOW)
+            os.environ["CLEMATIS_LOG_DIR"] = env.scratch("r_follow")
+            L.rewrite_jsonl("t1.jsonl", f_recs)
+            f_new = _read(os.path.join(env.sandbox, "r_follow", "t1.jsonl"))
             os.environ["CLEMATIS_LOG_DIR"] = env.w
             old = None
             if old_spec is not None:
@@ -353,6 +372,11 @@ def prepare(case: dict, base_dir: Optional[str] = FAST_TMP) -> Env:
                 os.environ["CLEMATIS_LOG_DIR"] = env.w
                 L.rewrite_jsonl("t1.jsonl", recs)
             env.call = call_jsonl
+
+            def follow_jsonl():
+                os.environ["CLEMATIS_LOG_DIR"] = env.w
+                L.rewrite_jsonl("t1.jsonl", f_recs)
+            env.follow = (follow_jsonl, {"t1.jsonl": f_new})
             env.dests = [Dest("t1.jsonl", "body", old, new, perm if old is not None else None)]
             env.suffixes = (".jsonl",)
         else:
@@ -511,9 +535,41 @@ def inject(env: Env, base: F.ChildResult, i: int, fname: str, rec, fork_errors: 
     obs = env.observe()
     try:
         labels = judge(env, i, base.steps[i][0], fault, res, obs, rec)
+        if res.outcome in ("killed", "exc") and env.follow is not None:
+            # fault SEQUENCE: the failed/killed write is followed — in the directory as it was left — by a fault-free,
+            # shorter write to the same destination; it must produce exactly its own content and no new debris
+            obs = follow_up(env, i, base.steps[i][0], fname, res, obs)
+            labels.append("follow-up-after=" + res.outcome)
     finally:
-        env.reset(obs)
+        env.reset(env.observe())
     return res, labels
+
+
+def follow_up(env: Env, i: int, op: str, fname: str, res: F.ChildResult, before: Dict[str, Tuple[bytes, int]]):
+    case = dict(_case_of(env, i, op, fname), follow=True)
+    where = f"target={env.target} step={i}:{op} fault={fname} outcome={res.outcome}, then a fault-free write of a short payload"
+    call, expected = env.follow
+    try:
+        call()
+    except Exception as e:
+        obs2 = env.observe()
+        raise Violation(f"{where}: the later write raised {type(e).__name__}: {e}", case, "follow-raises")
+    obs2 = env.observe()
+    for n, exp in expected.items():
+        got = obs2.get(n)
+        if got is None or got[0] != exp:
+            g = None if got is None else got[0]
+            what = ("missing" if g is None else "own content followed by bytes of the earlier, interrupted write"
+                    if g.startswith(exp) and len(g) > len(exp) else "other content")
+            raise Violation(f"{where}: {n} holds {what} (len {None if g is None else len(g)}, expected exactly the "
+                            f"{len(exp)} bytes just written)", case, "follow-wrong-content")
+    for n, v in env.initial.items():
+        if n not in env.dest_names and obs2.get(n) != v:
+            raise Violation(f"{where}: unrelated file {n!r} changed", case, "follow-bystander")
+    new_left = sorted(n for n in obs2 if n not in before and n not in env.dest_names and n not in env.initial)
+    if new_left:
+        raise Violation(f"{where}: the later write returned and left new temp file(s) {new_left}", case, "follow-leftover")
+    return obs2
 
 
 def first_temp_index(steps) -> int:
